@@ -19,7 +19,7 @@ import ast
 from ..cfg import CFG, branch_conditions
 from ..pathstate import conjuncts
 from ..report import Run
-from ..source import AnalysisError, FuncInfo, Module, walk_no_nested
+from ..source import AnalysisError, FuncInfo, Module, walk_no_nested, norm
 
 ZONE_FIELDS = {"content", "info_tag", "fence_marker"}
 VALUE_CLASSES = {"ListValue", "InlineMap", "HolographicValue", "LiteralZoneValue"}
@@ -535,6 +535,76 @@ def check_prelex_text(run: Run, rule: str) -> None:
     run.control(rule, "a `.splitlines()` call is recognised", isinstance(ctl, ast.Call) and ctl.func.attr == "splitlines")  # type: ignore[attr-defined]
 
 
+# ======================================================================================= R05.9
+def check_fence_recognition(run: Run, rule: str = "R05.9") -> None:
+    """what opens and closes a zone is decided by FENCE_PATTERN on the line as it stands in the text"""
+    run.rule(rule, "a fence is recognised on the raw line: every application of the lexer's FENCE_PATTERN (match / fullmatch) takes a line of the newline-split text unchanged - the loop variable, or an element of that list - never a stripped, case-folded, expanded or otherwise rewritten copy (a copy would let a tab-indented or otherwise different content line open or close a zone); search() is not used", 2)
+    n = 0
+    for m in run.project.modules.values():
+        # the name(s) under which this module knows the lexer's FENCE_PATTERN
+        names = set()
+        if m.name.endswith("core.lexer") and m.has_const("FENCE_PATTERN"):
+            names.add("FENCE_PATTERN")
+        for st in ast.walk(m.tree):
+            if isinstance(st, ast.ImportFrom) and st.module and st.module.endswith("lexer"):
+                for a in st.names:
+                    if a.name == "FENCE_PATTERN":
+                        names.add(a.asname or a.name)
+        if not names:
+            continue
+        for fi in m.functions.values():
+            for c in walk_no_nested(fi.node):
+                if not (isinstance(c, ast.Call) and isinstance(c.func, ast.Attribute) and c.func.attr in ("match", "fullmatch", "search", "finditer", "findall") and (ast.unparse(c.func.value) in names or ast.unparse(c.func.value).endswith(".FENCE_PATTERN"))):
+                    continue
+                n += 1
+                arg = c.args[0] if c.args else None
+                why = None
+                if c.func.attr not in ("match", "fullmatch"):
+                    why = f"FENCE_PATTERN.{c.func.attr} is not an anchored whole-line test"
+                elif len(c.args) != 1 or c.keywords:
+                    why = "FENCE_PATTERN applied with a start/end position"
+                elif not _is_raw_line(fi, arg):
+                    why = f"FENCE_PATTERN is applied to `{norm(arg)}`, which is not a line of the newline-split text as it stands"
+                run.instance(rule, m.loc(c), f"{fi.qualname}: `{norm(c)}`", ok=why is None)
+                if why:
+                    run.violation(rule, m, fi.qualname, c, f"{why}: a content line that is not a fence (tab-indented backticks, a fence followed by other text) can open or close a literal zone, so zone content is cut short or neighbouring fields are swallowed")
+    if n < 2:
+        raise AnalysisError(f"only {n} application(s) of FENCE_PATTERN found (lexer normaliser and octave_write pre-pass expected)")
+
+
+def _is_raw_line(fi: FuncInfo, arg: ast.AST | None) -> bool:
+    def is_split(e: ast.AST) -> bool:
+        if isinstance(e, ast.Call) and isinstance(e.func, ast.Attribute) and e.func.attr == "split" and len(e.args) == 1 and isinstance(e.args[0], ast.Constant) and e.args[0].value == "\n":
+            return True
+        if isinstance(e, ast.Call) and isinstance(e.func, ast.Name) and e.func.id == "enumerate" and e.args:
+            return is_split(e.args[0])
+        if isinstance(e, ast.Name):
+            defs = [a.value for a in walk_no_nested(fi.node) if isinstance(a, (ast.Assign, ast.AnnAssign)) and a.value is not None and any(isinstance(t, ast.Name) and t.id == e.id for t in (a.targets if isinstance(a, ast.Assign) else [a.target]))]
+            return bool(defs) and all(is_split(d) for d in defs)
+        return False
+
+    if isinstance(arg, ast.Subscript) and not isinstance(arg.slice, ast.Slice):
+        return is_split(arg.value)
+    if not isinstance(arg, ast.Name):
+        return False
+    # every binding of the name is the target of a for loop over the split lines (directly or through enumerate)
+    binds = []
+    for a in walk_no_nested(fi.node):
+        if isinstance(a, (ast.For, ast.comprehension)):
+            tg = a.target
+            tnames = [tg] if isinstance(tg, ast.Name) else (list(tg.elts) if isinstance(tg, ast.Tuple) else [])
+            if any(isinstance(t, ast.Name) and t.id == arg.id for t in tnames):
+                it = a.iter
+                last = isinstance(tg, ast.Name) or (isinstance(tg, ast.Tuple) and isinstance(tg.elts[-1], ast.Name) and tg.elts[-1].id == arg.id)
+                binds.append(is_split(it) and last)
+        elif isinstance(a, (ast.Assign, ast.AnnAssign, ast.AugAssign, ast.NamedExpr)):
+            tgs = a.targets if isinstance(a, ast.Assign) else [a.target]
+            if any(isinstance(x, ast.Name) and x.id == arg.id for t in tgs for x in ast.walk(t)):
+                v = a.value
+                binds.append(isinstance(a, (ast.Assign, ast.AnnAssign)) and isinstance(v, ast.Subscript) and not isinstance(v.slice, ast.Slice) and is_split(v.value))
+    return bool(binds) and all(binds)
+
+
 def check(run: Run) -> None:
     p = run.project
     scope = [p.mod(s) for s in SCOPE_QUICK] if run.tier == "quick" else list(p.modules.values())
@@ -545,4 +615,5 @@ def check(run: Run) -> None:
     check_text_passes(run)
     check_layout_siblings(run)
     check_prelex_text(run, "R05.8")
+    check_fence_recognition(run)
     run.assume("byte equality of zone content through a whole pipeline, and the collapse of a zone holding exactly one empty line into an empty zone (a value-level fact of the token representation) are not decided")
